@@ -89,7 +89,7 @@ func genShutdownCase(rng *rand.Rand, idx int) ShutdownCase {
 }
 
 func phaseShutdown(r *mon.Run) {
-	n := r.Pick(24, 200)
+	n := r.Pick(60, 420)
 	for i := 0; i < n; i++ {
 		c := genShutdownCase(r.RNG(0xC000+uint64(i)), i)
 		if i == 0 || i == 3 {
